@@ -101,7 +101,7 @@ inductive FieldShape
   | virtAlias (fref : Nat)
   /-- virtual, any other expression -/
   | virtOther
-  deriving Repr
+  deriving DecidableEq, Repr
 
 structure FieldDecl where
   scope : Path
@@ -327,12 +327,12 @@ def resolveRefs (T : Table) : List Ref → List Err → List (Option Path) × Li
 inductive ObjKind
   | module | type | value | param
   | field (shape : FieldShape)
-  deriving Repr
+  deriving DecidableEq, Repr
 
 structure Obj where
   canon : Path
   kind : ObjKind
-  deriving Repr
+  deriving DecidableEq, Repr
 
 /-- The definitions `ir_util.find_object` can return.  (The Python searches a type's
 parameters, then its fields / enum values, then its subtypes, and returns the first match; the
@@ -374,7 +374,7 @@ inductive FRes
   `noncomposite` error. -/
   | crash
   | fuel
-  deriving Repr
+  deriving DecidableEq, Repr
 
 structure FEnv where
   objs : List Obj
